@@ -1,6 +1,21 @@
 (* CorrDefs/CorrC20.v — one generated C20 case inside Coq (values are canonical JSON strings), and the checks run on it. *)
 From SPV Require Export Base.Corr Model.Front Model.FrontSpec Gen.FactsFront.
 
+(* two-callable histories: callable 0 has signature c_sig, callable 1 has pi_sig2; every step derives the config class of
+   one of them (through Partial[f] or config_for(f): the same request without arguments) *)
+Record pairobs := mkpo {
+  po_label : res nat;                              (* the class returned, labelled by first occurrence *)
+  po_target : nat;                                 (* which callable its _target_ is *)
+  po_fields : list (string * option string)        (* its dataclass fields *)
+}.
+Record pairinfo := mkpi {
+  pi_sig2 : list (param string);
+  pi_steps : list nat;
+  pi_use : nat;                                    (* the class last derived for this callable is parsed and called *)
+  pi_obs : list pairobs;
+  pi_called : option nat                           (* which callable's stub was invoked *)
+}.
+
 Record case := mkcase {
   c_main : bool;                                   (* true: decorators.main; false: config_for / Partial *)
   c_sig : list (param string);                     (* the signature of the wrapped function (defaults as observed) *)
@@ -13,7 +28,8 @@ Record case := mkcase {
   c_obs_call : option (call string);               (* raw args/kwargs the recording stub received *)
   c_obs_result : res (list (string * string));     (* how it ended; Ok = the parameter bindings inside the callable *)
   c_untyped : list (string * dkind);               (* un-annotated parameters with a default: what kind of value it is *)
-  c_obs_inferred : list (string * ity)             (* the type of their field in the first request's class, as observed *)
+  c_obs_inferred : list (string * ity);            (* the type of their field in the first request's class, as observed *)
+  c_pair : option pairinfo                         (* Some: a two-callable history (c_main = false) *)
 }.
 
 Definition vals_of (l : list (string * string)) (n : string) : string :=
@@ -42,10 +58,50 @@ Definition model_inferred (s : sig string) (r : cfreq string) (untyped : list (s
 Definition inferred_eqb (a b : list (string * ity)) : bool :=
   list_eqb (fun x y => String.eqb (fst x) (fst y) && ity_eqb (snd x) (snd y)) a b.
 
+Fixpoint forall2b {A B} (f : A -> B -> bool) (l1 : list A) (l2 : list B) : bool :=
+  match l1, l2 with [], [] => true | x :: r1, y :: r2 => f x y && forall2b f r1 r2 | _, _ => false end.
+Definition plain_req : cfreq string := mkreq IgAbsent None [].
+Definition pair_sigs (c : case) (p : pairinfo) (k : nat) : sig string := if Nat.eqb k 0 then c.(c_sig) else p.(pi_sig2).
+Definition po_fields_eqb (a b : list (string * option string)) : bool :=
+  list_eqb (fun x y => String.eqb (fst x) (fst y) && vopt_eqb String.eqb (snd x) (snd y)) a b.
+
+Definition pair_model_ok (c : case) (p : pairinfo) : bool :=
+  let sigs := pair_sigs c p in
+  let outs := snd (p_session String.eqb facts_gen sigs ([], []) (map (fun k => (k, plain_req)) p.(pi_steps))) in
+  list_eqb (res_eqb Nat.eqb) outs (map po_label p.(pi_obs))
+  && list_eqb Nat.eqb p.(pi_steps) (map po_target p.(pi_obs))
+  && forall2b (fun k o => match model_fields (sigs k) plain_req with
+                          | Ok fs => po_fields_eqb fs (po_fields o)
+                          | Err _ => match po_fields o with [] => true | _ => false end
+                          end) p.(pi_steps) p.(pi_obs)
+  && (let t := cf_run facts_gen (sigs p.(pi_use)) [] [] (parsed_of c) [] [] in
+      trace_eqb t (c.(c_obs_call), c.(c_obs_result))
+      && opt_eqb Nat.eqb (match fst t with Some _ => Some p.(pi_use) | None => None end) p.(pi_called)).
+
+Definition pair_spec_ok (c : case) (p : pairinfo) : bool :=
+  let sigs := pair_sigs c p in
+  spec_pair_labels p.(pi_steps) (map po_label p.(pi_obs))
+  && forall2b (fun k o => match po_label o with
+                          | Ok _ => Nat.eqb k (po_target o) && spec_fields String.eqb (sigs k) [] [] (Ok (po_fields o))
+                          | Err _ => false
+                          end) p.(pi_steps) p.(pi_obs)
+  && match find (fun ko => Nat.eqb (fst ko) p.(pi_use)) (rev (combine p.(pi_steps) p.(pi_obs))) with
+     | Some (_, o) =>
+         spec_partial_call String.eqb (sigs p.(pi_use)) (map fst (po_fields o)) (parsed_of c) [] []
+                           (c.(c_obs_call), c.(c_obs_result))
+         && match c.(c_obs_call), p.(pi_called) with
+            | Some _, Some k => Nat.eqb k p.(pi_use)
+            | Some _, None => false
+            | None, _ => true
+            end
+     | None => false
+     end.
+
 Definition in_scope (c : case) : bool := true.
 
 Definition model_ok (c : case) : bool :=
   let observed := (c.(c_obs_call), c.(c_obs_result)) in
+  match c.(c_pair) with Some p => pair_model_ok c p | None =>
   if c.(c_main) then
     trace_eqb (main_run facts_gen c.(c_sig) (parsed_of c) c.(c_xpos) c.(c_xkw)) observed
   else
@@ -57,10 +113,12 @@ Definition model_ok (c : case) : bool :=
         && inferred_eqb (model_inferred c.(c_sig) r0 c.(c_untyped)) c.(c_obs_inferred)
         && trace_eqb (cf_run facts_gen c.(c_sig) (ignore_names (rq_ignore r0)) (rq_over r0) (parsed_of c) c.(c_xpos) c.(c_xkw))
                      observed
-    end.
+    end
+  end.
 
 Definition spec_ok (c : case) : bool :=
   let observed := (c.(c_obs_call), c.(c_obs_result)) in
+  match c.(c_pair) with Some p => pair_spec_ok c p | None =>
   if c.(c_main) then
     spec_main String.eqb c.(c_sig) (parsed_of c)
               (match c.(c_xpos), c.(c_xkw) with [], [] => false | _, _ => true end) observed
@@ -75,4 +133,5 @@ Definition spec_ok (c : case) : bool :=
            | Ok fs => spec_partial_call String.eqb c.(c_sig) (map fst fs) (parsed_of c) c.(c_xpos) c.(c_xkw) observed
            | Err _ => false
            end
-    end.
+    end
+  end.
